@@ -894,6 +894,18 @@ pub fn run(ctx: &Ctx) {
         v
     }, check_g1_same_y);
 
+    ctx.listed("g1_near_curve_points", "points off y^2 = x^3 + 5 but on a neighbouring equation with one constant changed (b = 4, 6, 0, -5, 10, 5R, 5R^-1; a' = 1, -1, -3), abscissas at representation boundaries incl. those where the Montgomery image of x, x^2 or x^3 is next to 0 or p: is_on_curve must say no, in affine form and two Jacobian representations", || (0..g1_near_curve_points().len()).collect::<Vec<usize>>(), |i: &usize| {
+        let pr = r9::params();
+        let (label, x, y) = &g1_near_curve_points()[*i];
+        let bad = Some((r9::fp(x), r9::fp(y)));
+        for lambda in [BigUint::one(), BigUint::from(2u32), from_be(&expand_bytes(*i as u64 ^ 0x2ea3, 32)) % (pr.p - 2u32) + 2u32] {
+            let bl = lib_g1(&bad, &lambda);
+            let v = catch(|| bl.is_on_curve()).map_err(|e| Fail { key: "entry=Point::is_on_curve outcome=panic".into(), detail: e })?;
+            ensure!(!v, "entry=Point::is_on_curve outcome=true-off-curve input=near-curve", "{} ({:x}, {:x}) with Z = {:x}", label, x, y, lambda);
+        }
+        pass(true, "near-curve")
+    });
+
     ctx.listed("g1_edge_points", "boundary points of G1 (x next to 0, N, p, 2^256-p, powers of two; Montgomery x with all-ones / zero limbs; y with a leading zero byte) in affine and two Jacobian representations: double, add (P1, itself, its negative; both orders), point_mul, encode", || {
         let mut v = Vec::new();
         for point in 0..g1_edge_points().len() {
